@@ -334,9 +334,15 @@ func (r *c09Run) build(idx int, st StageSpec) func(ro.Observable[int]) ro.Observ
 			})
 		}
 	case "FirstWithContext":
-		return ro.FirstWithContext(func(ctx context.Context, x int) (context.Context, bool) { e.Yield(); return mark(ctx), x%2 == pi(st.P, 0, 0)%2 })
+		return ro.FirstWithContext(func(ctx context.Context, x int) (context.Context, bool) {
+			e.Yield()
+			return mark(ctx), x%2 == pi(st.P, 0, 0)%2
+		})
 	case "LastWithContext":
-		return ro.LastWithContext(func(ctx context.Context, x int) (context.Context, bool) { e.Yield(); return mark(ctx), x%2 == pi(st.P, 0, 0)%2 })
+		return ro.LastWithContext(func(ctx context.Context, x int) (context.Context, bool) {
+			e.Yield()
+			return mark(ctx), x%2 == pi(st.P, 0, 0)%2
+		})
 	case "DistinctByWithContext":
 		return ro.DistinctByWithContext(func(ctx context.Context, x int) (context.Context, int) { e.Yield(); return mark(ctx), x % 3 })
 	case "MapErrWithContext":
@@ -411,7 +417,11 @@ func (r *c09Run) auxValues(st StageSpec) []int {
 // ---------------------------------------------------------------------------------------------
 // family registration
 
-func c09StageOK(d *StageDef) bool { return !d.Hot }
+// DoWhile/While re-subscribe their source with the context of the completion that ended the previous run
+// (documented: the condition callback receives and returns it). Behind a ContextReset that is the reset
+// context, by design; the chain oracle's "subscribed with the subscription context" rule does not model
+// that, the dedicated family C09.loop judges those operators.
+func c09StageOK(d *StageDef) bool { return !d.Hot && d.Name != "DoWhile" && d.Name != "While" }
 
 func c09ChainValid(sc *Scn) bool {
 	if len(sc.Sources) < 1 || len(sc.Stages) < 1 || len(sc.Stages) > 30 {
